@@ -221,8 +221,8 @@ class Model:
 
 
 NAMES = [b"HEAD", b"refs/heads/a", b"refs/heads/a/b", b"refs/heads/b", b"refs/tags/t", b"refs/remotes/o/x", b"refs/heads/sym",
-         b"refs/heads/sym2", b"refs/heads/c"]
-PLAIN_NAMES = [b"refs/heads/a", b"refs/heads/b", b"refs/tags/t", b"refs/remotes/o/x", b"refs/heads/c"]
+         b"refs/heads/sym2", b"refs/heads/c", b"refs/top"]
+PLAIN_NAMES = [b"refs/heads/a", b"refs/heads/b", b"refs/tags/t", b"refs/remotes/o/x", b"refs/heads/c", b"refs/top"]
 
 
 def make_objects(d):
@@ -635,7 +635,7 @@ def main(ctx):
         cases.append({"kind": "chain", "seed": "%d/c/%d" % (ctx.seed, i)})
     ctx.rule = ("names: ALL byte strings of length 2..%d over the 20-symbol alphabet %s through check_ref_format vs a transcription of "
                 "git's check_refname_format (confirmed with the real binary on every disagreement and on a random sample); sequences: "
-                "25 ops over 9 names incl. D/F pair, symref chains, HEAD, loose/packed, pack_refs and re-open, model + git view; chains: symref "
+                "25 ops over 10 names incl. D/F pair, a ref directly below refs/, symref chains, HEAD, loose/packed, pack_refs and re-open, model + git view; chains: symref "
                 "chains of every length 1..8 (optionally entered through HEAD, packed, to present/absent/tag targets) read, listed and written "
                 "through, against what C git resolves. "
                 "non-trivial = distinct (name feature, verdict) / distinct operation-kind set." % (L, [a.decode('latin1') for a in NAME_ALPHA]))
